@@ -4,6 +4,7 @@
 #include "../engine/grid.hpp"
 #include <quadmath.h>
 #include <cmath>
+#include <limits>
 #include <cfloat>
 #include <cstring>
 
@@ -279,7 +280,33 @@ static void multivariate()
             }
         }
     }
-    R.part("atan2 (fallback and bound) on all pairs of a " + std::to_string(A.size()) + "-value axis incl. exact axis points and extreme magnitudes; norm2/hypot, norm3, norm/norm_ with strides 1..3 (gaps poisoned) incl. values whose square over/underflows; polar and spherical conversions with round trips", n, nt);
+    // subnormal components: the true norm is representable (as a subnormal or small normal number), so the result may be neither
+    // 0 nor infinite nor NaN; subnormal arithmetic has absolute precision, hence the additive two-quanta allowance
+    {
+        const a_real d = std::numeric_limits<a_real>::denorm_min();
+        std::vector<a_real> T{0, d, 3 * d, 1024 * d, (a_real)((double)RMIN / 1048576 * 3), (a_real)((double)RMIN / 8), (a_real)((double)RMIN / 4), (a_real)((double)RMIN * 0.75), (a_real)RMIN, (a_real)-((double)RMIN / 8)};
+        for (a_real x : T)
+        {
+            if (!R.shard.mine(item++)) { continue; }
+            for (a_real y : T)
+            {
+                for (a_real z : T)
+                {
+                    std::string in = "{\"x\":" + num((double)x) + ",\"y\":" + num((double)y) + ",\"z\":" + num((double)z) + "}";
+                    Q want = sqrtq((Q)x * x + (Q)y * y + (Q)z * z), tol = 8 * (Q)EPS * want + 2 * (Q)d;
+                    a_real v[3] = {x, y, z}, sv[7] = {x, (a_real)RMAX, (a_real)RMAX, y, (a_real)RMAX, (a_real)RMAX, z};
+                    a_real g[4] = {a_real_norm3(x, y, z), a_real_norm(3, v), a_real_norm_(3, sv, 3), z == 0 ? a_real_norm2(x, y) : a_real_norm3(x, y, z)};
+                    static const char *nm[4] = {"a_real_norm3", "a_real_norm", "a_real_norm_", "a_real_norm2"};
+                    n += 4; nt += want != 0 ? 4 : 0;
+                    for (int w = 0; w < 4; ++w)
+                    {
+                        if (!(fabsq((Q)g[w] - want) <= tol)) { R.viol(std::string("real|") + (w == 0 ? "norm3" : w == 3 ? "norm2" : "norm") + "|subnormal", std::string(nm[z == 0 || w != 3 ? w : 0]) + " of subnormal components = " + num((double)g[w]) + " but the norm " + num((double)want) + " is representable", in); }
+                    }
+                }
+            }
+        }
+    }
+    R.part("atan2 (fallback and bound) on all pairs of a " + std::to_string(A.size()) + "-value axis incl. exact axis points and extreme magnitudes; norm2/hypot, norm3, norm/norm_ with strides 1..3 (gaps poisoned) incl. values whose square over/underflows and all triples of a 10-value subnormal set; polar and spherical conversions with round trips", n, nt);
 }
 
 // ---------------------------------------------------------------- reductions and block movers (small integers: exact)
